@@ -26,6 +26,8 @@ func init() {
 func runC01(c *Ctx) {
 	c10LengthWord(c, c.Root(), "C01.body")
 	c15DecodeResult(c, c.Root(), "C01.body")
+	// files of every library revision are read alike: the layout constants are the documented ones
+	c10Constants(c, c.Root(), "C01.metadata")
 	// what Parse hands the uploader is what the file holds: metadata values untrimmed, every record kept
 	c.R.As(map[string]string{"C06.faithful": "C01.metadata"}, func() {
 		c06Shape(c, c.Root(), c.Root().Func("internal/counter", "Parse"))
